@@ -36,6 +36,14 @@ def runRecv (p : Party) : List (Bytes × Bytes) → List String
     | .panic => ["panic"]
     | .ok (p, o) => showOut o (p.st == .enc) p.question :: runRecv p rest
 
+/-- deliveries of arbitrary pieces to one party, with the genuine message as oracle -/
+def runPieces (p : Party) (orc : Oracle) : List Bytes → List String
+  | [] => []
+  | x :: xs =>
+    match p.recvBytes orc x with
+    | .panic => ["panic"]
+    | .ok (p, o) => showOut o (p.st == .enc) p.question :: runPieces p orc xs
+
 def parseTok (t : String) : Option Step :=
   match t.splitOn "." with
   | ["qa", d] => (ofHex d).map (Step.query true)
@@ -93,6 +101,24 @@ def handle (line : String) : String :=
       | some steps => ",".intercalate (((World.run {} steps)).map showObs)
       | none => "bad-op"
     | none => "bad-op"
+  | "mut" =>
+    match o.get? "script", o.get? "to", o.hex? "orig", (o.get? "in").bind hexList with
+    | some sc, some to, some orig, some pieces =>
+      match (sc.splitOn ",").mapM parseTok with
+      | none => "bad-op"
+      | some steps =>
+        match World.runTo {} steps with
+        | none => "panic"
+        | some w =>
+          let isA := to == "a"
+          match (if isA then w.toA else w.toB) with
+          | [] => "bad-op"
+          | gm :: _ =>
+            let genuine := match gm with
+              | .raw _ => none
+              | _ => (unframe orig).map (fun gb => (gb, gm))
+            ",".intercalate (runPieces (w.party isA) { genuine := genuine } pieces)
+    | _, _, _, _ => "bad-op"
   | _ => "bad-op"
 
 end XC.C47
